@@ -70,6 +70,7 @@ class IC:
         self.notes = []
         self.axioms_used = set()
         self.lemmas = []          # (name, hyps, goal): lemma obligations to be discharged by the unit
+        self.nz_cache = {}        # np.nonzero is a function of the mask: equal mask terms share one enumeration (key: mask term at a canonical index)
 
     def add(self, h):
         if h is not tm.TRUE:
@@ -388,6 +389,8 @@ class SArr:
     def _bin(self, o, f, sort=None, rev=False):
         a, b = (o, self) if rev else (self, o)
         shp, ga, gb, sa, sb = _broadcast(a, b)
+        if f is tm.mul and sa == BOOL and sb == BOOL:
+            f = tm.and_                                     # product of boolean arrays is their conjunction (NumPy: logical_and)
         so = sort
         if so is None:
             so = REAL if REAL in (sa, sb) else (INT if INT in (sa, sb) else BOOL)
@@ -403,6 +406,14 @@ class SArr:
     def __rtruediv__(self, o): return self._bin(o, tm.div, REAL, rev=True)
     def __floordiv__(self, o): return self._bin(o, tm.idiv, INT)
     def __mod__(self, o): return self._bin(o, tm.mod, INT)
+    def __pow__(self, n):
+        if not (isinstance(n, (int, np.integer)) and 1 <= int(n) <= 4):
+            raise Unsupported("power %r of a symbolic array" % (n,))
+        out = self
+        for _ in range(int(n) - 1):
+            out = out * self
+        return out
+
     def __neg__(self): return SArr(self._shape, lambda idx, s=self: tm.neg(s._get(idx)), self.sort)
     def __abs__(self): return SArr(self._shape, lambda idx, s=self: tm.absv(s._get(idx)), self.sort)
     def __eq__(self, o): return self._bin(o, tm.eq, BOOL)
@@ -725,6 +736,20 @@ def _setitem(A, key, value):
         c.add(tm.forall([jv], tm.implies(tm.and_(tm.le(tm.const(0), jv), tm.lt(jv, _t(J))),
                                          tm.and_(tm.le(tm.const(0), wq), tm.lt(wq, _t(J)), tm.eq(K._get((wq,)), mterm), tm.le(jv, wq))),
                         patterns=[[mterm]]))
+        A._get = get
+        if V.sort == REAL and A.sort != REAL:
+            A.sort = REAL
+        return
+
+    if any(cnd[0] == "mask" for cnd in conds) and not loops and V.ndim == 1 and sum(1 for cnd in conds if cnd[0] != "int") == 1:
+        # A[..ints.., mask] = vector: position i (mask true) receives V[rank of i among the true positions]
+        (mk,) = [cnd[1] for cnd in conds if cnd[0] == "mask"]
+        max_ = [ax for ax, cnd in enumerate(conds) if cnd[0] == "mask"][0]
+        rk = np_nonzero(mk)[0].nonzero_of[1]
+
+        def get(idx, old=old, mk=mk, max_=max_, rk=rk):
+            cs = [tm.eq(idx[ax], cnd[1]) for ax, cnd in enumerate(conds) if cnd[0] == "int"]
+            return tm.ite(tm.and_(mk._get((idx[max_],)), *cs), V._get((tm.app(rk, INT, idx[max_]),)), old(idx))
         A._get = get
         if V.sort == REAL and A.sort != REAL:
             A.sort = REAL
@@ -1072,7 +1097,18 @@ def np_nonzero(A):
         raise Unsupported("nonzero of rank %d" % A.ndim)
     c = ic()
     c.axiom("np.nonzero: ascending enumeration of the true positions")
+    _kv = tm.var("nz!key", INT)
+    _kt = A._get((_kv,))
+    key = (_kt, _t(A._shape[0]))
+    if key in c.nz_cache:
+        out, own = c.nz_cache[key]
+        have = set(map(id, c.hyps))
+        for h in own:                       # a unit that resets its hypotheses per path gets the enumeration's axioms again
+            if id(h) not in have:
+                c.add(h)
+        return (out,)
     n = tm.fresh("nnz", INT)
+    _h0 = len(c.hyps)
     f = tm.fresh_name("nz")
     N = _t(A._shape[0])
     c.add(tm.and_(tm.le(tm.const(0), n), tm.le(n, N)))
@@ -1092,6 +1128,7 @@ def np_nonzero(A):
                                     tm.and_(tm.le(tm.const(0), rp), tm.lt(rp, n), tm.eq(tm.app(f, INT, rp), p))), patterns=[[rp]]))
     out = SArr((n,), lambda idx, f=f: tm.app(f, INT, idx[0]), INT)
     out.nonzero_of = (A, rk)
+    c.nz_cache[key] = (out, list(c.hyps[_h0:]))
     return (out,)
 
 
